@@ -92,6 +92,10 @@ type cursor struct {
 	line         lineBreakClass // the Line Break Class at index i
 	nextLine     lineBreakClass // the Line Break Class at index i+1
 
+	// the rune having the class [prevLine] : by rule LB9, it is the base X
+	// of a sequence X (CM | ZWJ)*, and not always the rune at index i-1
+	prevLineRune rune
+
 	// the last rune after spaces, used in rules LB14,LB15,LB16,LB17
 	// to match ... SP* ...
 	beforeSpaces lineBreakClass
